@@ -124,6 +124,9 @@ fn read_journal(path: &std::path::Path) -> Option<Value> {
 
 pub fn exec_journalled(v: &Value) -> Result<(), String> {
     let kind = v.get("kind").and_then(|x| x.as_str()).unwrap_or("");
+    if kind != "instr" && kind != "program" {
+        return crate::props::exec_custom_journal(v);
+    }
     let state = v.get("state").and_then(StateSpec::from_json).ok_or("bad state")?;
     match kind {
         "instr" => {
@@ -230,12 +233,17 @@ pub fn supervise(args: &[String], prop: &str) -> i32 {
                 let _ = std::fs::write(&tmp, serde_json::to_string(&v).unwrap());
                 let o = run_child(&[prop.to_string(), "--exec-journal".to_string(), tmp.clone()], None, 30, 60);
                 let bad = o.signal.is_some() || o.timed_out || o.stuck; // ordinary panics (code 3) are left to the in-process checks
+                say(&format!("note: journalled case {} -> code {:?} signal {:?} timed_out {}", label0, o.code, o.signal, o.timed_out));
                 if bad {
                     confirmed += 1;
                     seen_labels.push(label0.clone());
                     let label = v.get("instruction").and_then(|x| x.as_str()).map(|s| s.to_string()).unwrap_or_else(|| v.get("kind").and_then(|x| x.as_str()).unwrap_or("case").to_string());
                     let how = if o.timed_out { "hang".to_string() } else if o.code == Some(3) { "panic".to_string() } else { format!("abort(signal {})", o.signal.unwrap_or(0)) };
                     let sig = format!("{}/{}/{}", prop, label, how);
+                    if seen_labels.contains(&sig) {
+                        continue;
+                    }
+                    seen_labels.push(sig.clone());
                     let dir = format!("{}/replays/{}", crate::verif_root(), prop);
                     let _ = std::fs::create_dir_all(&dir);
                     let body = json!({"property": prop, "subcheck": "crash", "signature": sig, "detail": format!("executing the journalled case in a fresh process ends in {}", how), "case": v});
@@ -262,7 +270,9 @@ pub fn supervise(args: &[String], prop: &str) -> i32 {
             2
         }
     };
-    let _ = std::fs::remove_dir_all(&jdir);
+    if std::env::var("PV_KEEP_JOURNAL").is_err() {
+        let _ = std::fs::remove_dir_all(&jdir);
+    }
     code
 }
 
@@ -280,4 +290,9 @@ pub fn replay_crash(prop: &str, file: &str, case: &Value) -> i32 {
         say(&format!("replay: property={} the journalled case now completes normally", prop));
         0
     }
+}
+
+/// run `pv <args>` as a child without journal; used by probes that expect a possible abort
+pub fn run_child_public(args: &[String], overall_secs: u64) -> ChildOutcome {
+    run_child(args, None, overall_secs, overall_secs)
 }
